@@ -35,9 +35,15 @@ type c33sc struct {
 	action string
 	at     time.Duration
 	ka     time.Duration
+	retry  time.Duration // RetryDelay (0: 1 s)
 }
 
-func (sc c33sc) name() string { return fmt.Sprintf("%s@%v/ka=%v", sc.action, sc.at, sc.ka) }
+func (sc c33sc) name() string {
+	if sc.retry != 0 {
+		return fmt.Sprintf("%s@%v/ka=%v/retry=%v", sc.action, sc.at, sc.ka, sc.retry)
+	}
+	return fmt.Sprintf("%s@%v/ka=%v", sc.action, sc.at, sc.ka)
+}
 
 func c33cfg(keepAlive time.Duration) cl.Config {
 	cfg := c17cfg()
@@ -47,6 +53,10 @@ func c33cfg(keepAlive time.Duration) cl.Config {
 
 func c33action(c *cl.CL, a string) func() error {
 	switch a {
+	case "Sleep(1s)":
+		return func() error { return c.C.Sleep(time.Second) }
+	case "Sleep(2s)":
+		return func() error { return c.C.Sleep(2 * time.Second) }
 	case "Sleep(3s)":
 		return func() error { return c.C.Sleep(3 * time.Second) }
 	case "Sleep(6s)":
@@ -70,7 +80,11 @@ type c33sent struct {
 func runC33(t *testing.T, sc c33sc, keepAlive time.Duration, prefix []int) explore.ExecResult {
 	res, _ := explore.Bubble(t, prefix, func(s *vsched.Sched) (string, []explore.Violation) {
 		s.NoChoice = true
-		c := cl.New(s, c33cfg(keepAlive))
+		cfg33 := c33cfg(keepAlive)
+		if sc.retry != 0 {
+			cfg33.RetryDelay = sc.retry
+		}
+		c := cl.New(s, cfg33)
 		connectAnd(c)
 		c.Take()
 		base := c.SentCount()
@@ -227,15 +241,22 @@ func c33scenarios() []c33sc {
 	var out []c33sc
 	// KeepAlive 4 s: longer than a whole PINGREQ exchange; 2 s: a tick can come due while the previous ping is still in flight
 	for _, ka := range []time.Duration{4 * time.Second, 2 * time.Second} {
-		out = append(out, c33sc{"none", 0, ka})
+		out = append(out, c33sc{"none", 0, ka, 0})
 		last := 9
 		if ka == 2*time.Second {
 			last = 5
 		}
 		for _, a := range []string{"Sleep(3s)", "Sleep(6s)", "Disconnect", "Publish q1", "Ping"} {
 			for x := 0; x <= last; x++ {
-				out = append(out, c33sc{a, time.Duration(x)*time.Second + 500*time.Millisecond, ka})
+				out = append(out, c33sc{a, time.Duration(x)*time.Second + 500*time.Millisecond, ka, 0})
 			}
+		}
+	}
+	// a sleep period shorter than the retry delay: the client falls asleep and wakes up again within one
+	// unanswered keep-alive exchange
+	for _, a := range []string{"Sleep(1s)", "Sleep(2s)"} {
+		for x := 3; x <= 5; x++ {
+			out = append(out, c33sc{a, time.Duration(x)*time.Second + 500*time.Millisecond, 4 * time.Second, 3 * time.Second})
 		}
 	}
 	return out
@@ -264,7 +285,7 @@ func TestC33(t *testing.T) {
 	}
 	explore.RunScenarios(rep, scs, explore.ScenarioOpts{Test: "TestC33", QuickBound: 2, ThoroughFrom: 2, ThoroughMax: 4,
 		QuickBudget: 150 * time.Second, ThoroughBudge: 12 * time.Minute})
-	rep.Coverage["rule"] = "KeepAlive 4 s and 2 s (a tick can come due while the previous ping is in flight), RetryDelay 1 s, RetryCount 2; after Connect one API action (Sleep 3 s / Sleep 6 s / Disconnect / Publish q1 / Ping / none) at t = 0.5 .. 9.5 s (0.5 .. 5.5 s for KeepAlive 2 s); the gateway answers each keep-alive PINGREQ at once / 1 s late / 2 s late / never and a DISCONNECT(d) at once / 1 s late; all combinations of these answers, of thread interleavings (API thread, receive loop, keep-alive loop, timer goroutines), of orders of timers due at the same instant and of ready select cases within the deviation bound, run to a 20 s horizon. Checked: no PINGREQ without client id is written while the client state is asleep or disconnected; while active PINGREQs are at most KeepAlive apart (when every ping is answered); with every ping answered the API call returns nil as it does without the keep-alive loop, and it returns in any case"
+	rep.Coverage["rule"] = "KeepAlive 4 s and 2 s (a tick can come due while the previous ping is in flight), RetryDelay 1 s, RetryCount 2; after Connect one API action (Sleep 3 s / Sleep 6 s / Disconnect / Publish q1 / Ping / none) at t = 0.5 .. 9.5 s (0.5 .. 5.5 s for KeepAlive 2 s), plus Sleep 1 s / 2 s with RetryDelay 3 s (asleep and awake again within one keep-alive exchange); the gateway answers each keep-alive PINGREQ at once / 1 s late / 2 s late / never and a DISCONNECT(d) at once / 1 s late; all combinations of these answers, of thread interleavings (API thread, receive loop, keep-alive loop, timer goroutines), of orders of timers due at the same instant and of ready select cases within the deviation bound, run to a 20 s horizon. Checked: no PINGREQ without client id is written while the client state is asleep or disconnected; while active PINGREQs are at most KeepAlive apart (when every ping is answered); with every ping answered the API call returns nil as it does without the keep-alive loop, and it returns in any case"
 	rep.Assumptions = []string{"virtual time; timers on whole seconds, actions on half seconds", "client state sampled at every scheduling step", "keep-alive PINGREQ = PINGREQ without client id"}
 	rep.Finish()
 }
